@@ -2,7 +2,9 @@ package main
 
 import (
 	"fmt"
+	"go/token"
 	"go/types"
+	"os"
 	"strings"
 
 	"golang.org/x/tools/go/ssa"
@@ -310,8 +312,18 @@ func checkC15(c *Ctx, w *World) {
 		for _, a := range g.ai.ByFn[g.upd] {
 			if a.Field == "GCPMultiEndpoint.pools" && a.What == "map-insert" {
 				mu := a.Instr.(*ssa.MapUpdate)
-				mc, isC := stripConv(mu.Value).(*ssa.Call)
-				if isC && isCallTo(mc, g.newMC, p) && mu.Key == target && mc.Call.Args[0] == target && isExtractOf(mc.Call.Args[1], d, 0) && mc.Call.Args[2] == ssa.Value(g.upd.Params[0]) && dominatesInstr(d, mu) {
+				// the inserted value where the insertion is reached (a merged `mc, created := …; if created { pools[e] = mc }`
+				// has one concrete origin there)
+				val := stripConv(mu.Value)
+				if rs := cs.ResolveUnder(mu.Value, cs.Reach(mu)); len(rs) == 1 {
+					val = stripConv(rs[0])
+				}
+				mc, isC := val.(*ssa.Call)
+				after := dominatesInstr(d, mu)
+				if !after {
+					after, _ = cs.Implies(cs.Reach(mu), cs.Reach(d))
+				}
+				if isC && isCallTo(mc, g.newMC, p) && mu.Key == target && mc.Call.Args[0] == target && isExtractOf(mc.Call.Args[1], d, 0) && mc.Call.Args[2] == ssa.Value(g.upd.Params[0]) && after {
 					okIns = true
 				}
 			}
@@ -485,13 +497,12 @@ func checkC15(c *Ctx, w *World) {
 					return
 				}
 				// second argument: GetState(of the outer element's conn) == Ready
-				bo, isB := call.Call.Args[1].(*ssa.BinOp)
-				if !isB || bo.Op.String() != "==" {
+				sv, isEq := eqConstOperand(call.Call.Args[1], g.Ready, func(ssa.Value) bool { return true })
+				if !isEq {
 					return
 				}
-				st, isC := bo.X.(*ssa.Call)
-				v, isK := constInt(bo.Y)
-				if !isC || !isK || v != g.Ready || !strings.HasSuffix(calleeOf(&st.Call).Name(), "grpc.(*ClientConn).GetState") {
+				st, isC := stripConv(sv).(*ssa.Call)
+				if !isC || !strings.HasSuffix(calleeOf(&st.Call).Name(), "grpc.(*ClientConn).GetState") {
 					return
 				}
 				if f, base, isL := loadedField(st.Call.Args[0]); isL && f == "monitoredConn.conn" && outer.val(base) && inner.onEveryIteration(call) {
@@ -503,12 +514,18 @@ func checkC15(c *Ctx, w *World) {
 				for _, r := range returnsOf(g.upd) {
 					if nilErr, _ := allOrigins(r.Results[0], isConstNilOrigin); nilErr && !dominatesInstr(outer.Range, r) {
 						okSync = false
+						if os.Getenv("VERIF_DEBUG") != "" {
+							fmt.Println("DEBUG sync: return not dominated", p.ipos(r))
+						}
 					}
 				}
 				// nothing mutates pools/mes after the sync loop
 				for _, a := range g.ai.ByFn[g.upd] {
 					if (a.Field == "GCPMultiEndpoint.pools" || a.Field == "GCPMultiEndpoint.mes") && a.isWrite() && mayPrecede(outer.Range, a.Instr) {
 						okSync = false
+						if os.Getenv("VERIF_DEBUG") != "" {
+							fmt.Println("DEBUG sync: write after", p.ipos(a.Instr))
+						}
 					}
 				}
 				c.check(okSync, "C15.sync", "status sync before success", p.ipos(syncCall), "every success return is preceded by the pools × MultiEndpoints loop calling SetEndpointAvailability(endpoint, state == READY); nothing mutates pools/mes afterwards", "a successful update can return before every MultiEndpoint reflects the connectivity of the kept pools")
@@ -574,11 +591,7 @@ func checkC15(c *Ctx, w *World) {
 			if !ok || !call.Call.IsInvoke() || call.Call.Method.Name() != "SetEndpointAvailability" || !rl.onEveryIteration(call) || !rl.val(call.Call.Value) {
 				return
 			}
-			bo, isB := call.Call.Args[1].(*ssa.BinOp)
-			if !isB || bo.X != ssa.Value(g.notify.Params[1]) {
-				return
-			}
-			if v, isK := constInt(bo.Y); !isK || v != g.Ready || bo.Op.String() != "==" {
+			if _, isEq := eqConstOperand(call.Call.Args[1], g.Ready, isVal(g.notify.Params[1])); !isEq {
 				return
 			}
 			if f, base, isL := loadedField(call.Call.Args[0]); isL && f == "monitoredConn.endpoint" && base == ssa.Value(g.notify.Params[0]) && g.lf.HeldAt(call)["GCPMultiEndpoint.mu"] >= 1 {
@@ -629,4 +642,20 @@ func reachesAvoiding(from, to, avoid ssa.Instruction) bool {
 		return false
 	}
 	return scan(from.Block(), instrIndex(from)+1)
+}
+
+// eqConstOperand: v is `x == k` or `k == x` (possibly assigned to a local first) with subject(x); returns x.
+func eqConstOperand(v ssa.Value, k int64, subject vpred) (ssa.Value, bool) {
+	bo, ok := cellValue(v).(*ssa.BinOp)
+	if !ok || bo.Op != token.EQL {
+		return nil, false
+	}
+	x, y := bo.X, bo.Y
+	if c, isK := constInt(x); isK && c == k {
+		x, y = y, x
+	}
+	if c, isK := constInt(y); !isK || c != k || !subject(x) {
+		return nil, false
+	}
+	return x, true
 }
